@@ -450,6 +450,7 @@ def densify(coords: CoordList, resolution: float) -> CoordList:
     """
     Adds points so they are at most `resolution` units apart.
     """
+    resolution = float(resolution)
     d2 = resolution**2
 
     def short_enough(p1, p2):
@@ -460,6 +461,8 @@ def densify(coords: CoordList, resolution: float) -> CoordList:
         if not short_enough(p1, p2):
             segment = geometry.LineString([p1, p2])
             segment_length = segment.length
+            if resolution <= 0 and segment_length > 0:
+                raise ValueError("resolution must be a positive number")
             d = resolution
             while d < segment_length:
                 (pt,) = segment.interpolate(d).coords
@@ -1455,4 +1458,11 @@ def mid_longitude(geom: Geometry) -> float:
 
 def _auto_resolution(g: Geometry) -> float:
     # aim for ~100 points per side of a square
-    return math.sqrt(g.area) * 4 / 100
+    area = g.area
+    if area > 0:
+        return math.sqrt(area) * 4 / 100
+    # lines and other zero-area geometries: ~100 points along the length
+    length = g.length
+    if length > 0:
+        return length / 100
+    return math.inf  # points: nothing to densify
